@@ -71,6 +71,11 @@ class Sys(e2.DevSys):
         self.insts = []
         for n, (sid, iid, major, minor, cyclic) in enumerate(self.specs):
             opts = (hdr.IPv4EndpointOption(ipaddress.IPv4Address("192.0.2.1"), hdr.L4Protocols.UDP, 30500 + n),)
+            # earlier in this process another description of the same service ids, with another endpoint, was
+            # turned into an offer entry (e.g. the configuration before a reconfiguration): must not matter
+            old = (hdr.IPv4EndpointOption(ipaddress.IPv4Address("192.0.2.200"), hdr.L4Protocols.TCP, 20500 + n),)
+            cfg_.Service(sid, iid, major, minor, options_1=old, eventgroups=frozenset({5})).create_offer_entry(cfg["ttl"])
+            cfg_.Service(sid, iid, major, minor, options_1=old, eventgroups=frozenset({5})).create_offer_entry()
             inst = sd.ServiceInstance(cfg_.Service(sid, iid, major, minor, options_1=opts, eventgroups=frozenset({5})),
                                       sd.ServerServiceListener(), self.prot.announcer, self.t if cyclic else self.t_nc)
             self.insts.append(inst)
